@@ -3,6 +3,7 @@ package namesys
 import (
 	"context"
 	"errors"
+	"math"
 	"strings"
 	"sync"
 	"time"
@@ -188,6 +189,12 @@ func (p *IPNSPublisher) updateRecord(ctx context.Context, k crypto.PrivKey, valu
 				// value changes.
 				// TODO: also compare Data field (https://specs.ipfs.tech/ipns/ipns-record/#extensible-data-dag-cbor)
 				// if we ever expose ability to set custom CBOR in PublishOptions
+				if seq == math.MaxUint64 {
+					// There is no greater sequence number: incrementing
+					// would wrap to 0 and publish a record that every
+					// holder of the current one ignores.
+					return nil, ErrInvalidSequence
+				}
 				seq++
 			}
 		}
